@@ -141,15 +141,17 @@ type streamKey struct{}
 
 // StreamSvc is one generated service mounted on real sockets.
 type StreamSvc struct {
-	S        *Svc
-	stub     reflect.Value
-	client   reflect.Value
-	mux      goahttp.Muxer
-	ts       *httptest.Server
-	tickets  int64
-	timedOut bool
-	mu       sync.Mutex
-	cur      *streamEx
+	S         *Svc
+	stub      reflect.Value
+	client    reflect.Value
+	mux       goahttp.Muxer
+	ts        *httptest.Server
+	tickets   int64
+	timedOut  bool
+	newClient any
+	bound     int
+	mu        sync.Mutex
+	cur       *streamEx
 }
 
 // rwTap records the status and body the server wrote without upgrading, and stays a Hijacker.
@@ -246,15 +248,27 @@ func MountStreaming(s *Svc) (*StreamSvc, error) {
 	var up goahttp.Upgrader = trackUpgrader{}
 	server := callFunc(reflect.ValueOf(ssyms["New"]), endpoints.Interface(), ss.mux, goahttp.RequestDecoder, goahttp.ResponseEncoder, errh, up, http.Dir("/nonexistent"))[0]
 	callFunc(reflect.ValueOf(ssyms["Mount"]), ss.mux, server.Interface())
+	ss.newClient = csyms["NewClient"]
+	ss.bind()
+	return ss, nil
+}
+
+// bind starts a fresh HTTP server (new loopback port) in front of the muxer and points a fresh
+// generated client at it.
+func (ss *StreamSvc) bind() {
 	ss.ts = httptest.NewUnstartedServer(http.HandlerFunc(ss.serve))
 	ss.ts.Config.ErrorLog = log.New(io.Discard, "", 0)
 	ss.ts.Start()
 	var dl goahttp.Dialer = trackDialer{}
 	var doer goahttp.Doer = ss.ts.Client()
 	host := strings.TrimPrefix(ss.ts.URL, "http://")
-	ss.client = callFunc(reflect.ValueOf(csyms["NewClient"]), "http", host, doer, goahttp.RequestEncoder, goahttp.ResponseDecoder, false, dl)[0]
-	return ss, nil
+	ss.client = callFunc(reflect.ValueOf(ss.newClient), "http", host, doer, goahttp.RequestEncoder, goahttp.ResponseDecoder, false, dl)[0]
+	ss.bound = 0
 }
+
+// rebindEvery bounds the number of connections made to one listening port (each exchange leaves
+// one loopback socket in TIME_WAIT).
+const rebindEvery = 4000
 
 // Close stops the HTTP server.
 func (ss *StreamSvc) Close() {
@@ -506,6 +520,11 @@ func (ss *StreamSvc) Exchange(ex *streamEx) {
 		ex.Herr = fmt.Errorf("client has no endpoint method for %q", m.Name)
 		return
 	}
+	if ss.bound++; ss.bound > rebindEvery && !ss.timedOut {
+		ss.ts.Close()
+		ss.bind()
+		epm = ss.client.MethodByName(s.GoMethod(m.Name))
+	}
 	ep := epm.Call(nil)[0].Interface().(goa.Endpoint)
 	ss.setCurrent(ex)
 	defer ss.setCurrent(nil)
@@ -567,6 +586,12 @@ func (ss *StreamSvc) Exchange(ex *streamEx) {
 	if ex.reqSeen.Load() {
 		if !wait(ex.handlerDone, "server handler") {
 			return
+		}
+	} else if ex.OpenErr != nil {
+		// nothing reached the server: a failure of the loopback connection itself is the harness's
+		var ne *net.OpError
+		if errors.As(ex.OpenErr, &ne) && ne.Op == "dial" {
+			ex.Herr = fmt.Errorf("loopback dial failed: %v", ex.OpenErr)
 		}
 	}
 	ex.closeConns()
@@ -920,6 +945,19 @@ func (ex *streamEx) caseJSON(s *Svc, p streamPlan) map[string]any {
 		cs["server_errors"] = e
 	}
 	return cs
+}
+
+// responseText describes what the server did with the HTTP request of the exchange.
+func (ex *streamEx) responseText() string {
+	switch {
+	case ex.Upgraded:
+		return "the server upgraded the connection to WebSocket"
+	case !ex.reqSeen.Load():
+		return "no request reached the server"
+	case ex.Status == 0:
+		return "the server never upgraded the connection and wrote nothing: net/http answered the WebSocket handshake with an implicit 200 and an empty body"
+	}
+	return fmt.Sprintf("the server never upgraded the connection and answered status %d, body %q", ex.Status, truncate(ex.Body, 120))
 }
 
 // streamPanic returns the panic text of an exchange ("" when none).
